@@ -29,6 +29,14 @@ var c06Structural = []c06Tok{
 	{text: "f:a", kind: 0, atom: "file", arg: "a"},
 }
 
+// case scoping: a case: directive belongs to its enclosing group
+var c06CaseScope = []c06Tok{
+	{text: "a", kind: 0, atom: "any", arg: "a"},
+	{text: "B", kind: 0, atom: "any", arg: "B"},
+	{text: "(", kind: 1}, {text: ")", kind: 2},
+	{text: "case:yes", kind: 5, arg: "yes"}, {text: "case:no", kind: 5, arg: "no"}, {text: "case:auto", kind: 5, arg: "auto"},
+}
+
 var c06Aliases = []c06Tok{
 	{text: "file:a", kind: 0, atom: "file", arg: "a"}, {text: "f:a", kind: 0, atom: "file", arg: "a"},
 	{text: "content:a", kind: 0, atom: "content", arg: "a"}, {text: "c:a", kind: 0, atom: "content", arg: "a"},
@@ -269,9 +277,12 @@ func c06Norm(t string) string {
 }
 
 func H_C06_semantics() {
-	vocab, maxTokens := c06Structural, verifrt.Param("tokensStructural", 5, 6)
-	if verifrt.Bool("aliases") {
+	vocab, maxTokens := c06Structural, verifrt.Param("tokensStructural", 4, 6)
+	switch verifrt.Concretize(verifrt.IntRange("regime", 0, 2)) {
+	case 1:
 		vocab, maxTokens = c06Aliases, verifrt.Param("tokensAliases", 3, 3)
+	case 2:
+		vocab, maxTokens = c06CaseScope, verifrt.Param("tokensCaseScope", 5, 6)
 	}
 	n := verifrt.Concretize(verifrt.IntRange("tokens", 1, maxTokens))
 	var toks []c06Tok
